@@ -34,6 +34,9 @@ type Case struct {
 	// Strict: judge the recorded-finding classes too (files under replays/C12/known/). When false a
 	// failure whose recorded precondition holds for the case is counted as Excluded.
 	Strict bool `json:",omitempty"`
+	// HDL: also run a simulator-faithful machine on its generated Verilog (guard of the HDL path). Machines
+	// with RAM opcodes always take the HDL path.
+	HDL bool `json:",omitempty"`
 }
 
 // Signatures of recorded findings.
@@ -48,6 +51,7 @@ const (
 	sigLeak      = "D-C12-declaration-outlives-case-or-for-clause"
 	sigDefIgn    = "D-C12-define-of-existing-name-dropped"
 	sigEndJump   = "D-C12-jump-past-last-rom-address"
+	sigDefMem    = "D-C12-define-of-ram-name-never-binds"
 	sigSemantics = "semantics-differ"
 )
 
@@ -63,6 +67,7 @@ var openFindings = map[string]bool{
 	sigMultiRet: true,
 	sigLeak:     true,
 	sigDefIgn:   true,
+	sigDefMem:   true,
 }
 
 func isOpen(sig string) bool {
@@ -105,6 +110,7 @@ func genCase(o GenOpts) func(t *rapid.T) Case {
 		}
 		c.Src, c.Mpm = GenProgram(t, o, c.Rsize)
 		c.Plans = genPlans(t)
+		c.HDL = rapid.Bool().Draw(t, "hdl1") && rapid.Bool().Draw(t, "hdl2") // a quarter of the faithful machines
 		c.InVals = make([]uint64, 16)
 		for i := 11; i <= 14; i++ {
 			c.InVals[i] = rapid.Uint64().Draw(t, "inval")
@@ -244,6 +250,9 @@ func prop(c Case) pbt.Outcome {
 				hardTimeout, i, c.Plans[i].GoMaxProcs, c.Plans[i].Sched, c.Src, dumpHead(r.Dump))})
 		case "harness-error":
 			return finish(pbt.Outcome{Excluded: "harness-error"})
+		case "slow":
+			// the deadline passed while the compiler was still executing (loaded machine): inconclusive
+			return finish(pbt.Outcome{Excluded: "tool-slow-under-load"})
 		}
 	}
 	var done []int
@@ -369,97 +378,207 @@ func prop(c Case) pbt.Outcome {
 	if facts.FallDefault {
 		lab("class:fallthrough-into-default")
 	}
-	total := 0
-	for k, p := range ld.Procs {
-		if bad := unfaithfulOps(p.Ops, c.Rsize); len(bad) > 0 {
-			lab("sem:needs-hdl")
-			lab("sem:needs-hdl:" + strings.Join(bad, ","))
-			return finish(out)
+	classify := func(f *pbt.Failure) pbt.Outcome {
+		switch {
+		case len(facts.HoistedIncDec) > 0:
+			return known(sigHoist, f)
+		case len(facts.DefineIgnored) > 0:
+			return known(sigDefIgn, f)
+		case len(facts.LeakDecl) > 0:
+			return known(sigLeak, f)
+		case len(facts.DefineMemShadow) > 0:
+			return known(sigDefMem, f)
+		case len(facts.MultiReturn) > 0:
+			return known(sigMultiRet, f)
+		case eqTrue > 0:
+			return known(sigJe, f)
 		}
-		_ = k
+		return finish(pbt.Outcome{Fail: f})
 	}
-	for k, p := range ld.Procs {
-		rr := ref.Routines[k]
-		inputs := make([]uint64, int(p.Mach.N))
-		for idx, gid := range rr.InGids {
-			if idx < len(inputs) && gid < len(c.InVals) {
-				inputs[idx] = c.InVals[gid]
-			}
-		}
-		ticks := 20*rr.Evals + 200
-		got, executed, serr := Simulate(p.Mach, inputs, ticks)
-		mismatch := ""
-		if serr != nil {
-			mismatch = "simulation stopped: " + serr.Error()
-		}
-		idxs := sortedKeys(rr.Streams)
-		for _, idx := range idxs {
+	// compare: prefix-wise per output; short = the machine has (so far) written fewer values than the source
+	compare := func(rr RoutineRes, got map[int][]uint64, span string) (mismatch string, short bool, n int) {
+		for _, idx := range sortedKeys(rr.Streams) {
 			want := rr.Streams[idx]
 			g := got[idx]
-			if mismatch != "" {
-				break
+			for i := 0; i < len(want) && i < len(g); i++ {
+				if g[i] != want[i] {
+					return fmt.Sprintf("output %d (global id %d): value #%d is %d, expected %d", idx, rr.Gids[idx], i, g[i], want[i]), false, n
+				}
 			}
 			if len(g) < len(want) {
-				mismatch = fmt.Sprintf("output %d (global id %d): the machine wrote %d values in %d instructions, the source writes %d in the same span", idx, rr.Gids[idx], len(g), executed, len(want))
-				break
+				return fmt.Sprintf("output %d (global id %d): the machine wrote %d values in %s, the source writes %d in the same span", idx, rr.Gids[idx], len(g), span, len(want)), true, n
 			}
-			for i := range want {
-				if g[i] != want[i] {
-					mismatch = fmt.Sprintf("output %d (global id %d): value #%d is %d, expected %d", idx, rr.Gids[idx], i, g[i], want[i])
-					break
-				}
-			}
-			total += len(want)
+			n += len(want)
 		}
-		if mismatch == "" {
-			for _, idx := range sortedKeys(got) {
-				if _, ok := rr.Streams[idx]; !ok && len(got[idx]) > 0 && rr.Stopped == "budget" {
-					// the reference stopped on its budget: an output it had not reached yet may legitimately appear later
-					if rr.Writes >= bud.MaxWrites || rr.Evals >= bud.MaxEvals {
-						continue
-					}
-					mismatch = fmt.Sprintf("output %d is written by the machine (%v) and never by the source", idx, got[idx])
+		for _, idx := range sortedKeys(got) {
+			if _, ok := rr.Streams[idx]; !ok && len(got[idx]) > 0 && rr.Stopped == "budget" {
+				// the reference stopped on its budget: an output it had not reached yet may legitimately appear later
+				if rr.Writes >= bud.MaxWrites || rr.Evals >= bud.MaxEvals {
+					continue
 				}
+				return fmt.Sprintf("output %d is written by the machine (%v) and never by the source", idx, got[idx]), false, n
 			}
 		}
-		if mismatch != "" {
-			f := pbt.Failf(sigSemantics, "register size %d, processor %d (%s): %s\nexpected streams (per output, first 32) %v\nmachine streams  (per output, first 32) %v\n--- source\n%s--- assembly %d\n%s",
-				c.Rsize, k, rr.Func, mismatch, clip(rr.Streams), clip(got), c.Src, k, numbered(base.Asm[k]))
-			switch {
-			case len(facts.HoistedIncDec) > 0:
-				return known(sigHoist, f)
-			case len(facts.DefineIgnored) > 0:
-				return known(sigDefIgn, f)
-			case len(facts.LeakDecl) > 0:
-				return known(sigLeak, f)
-			case len(facts.MultiReturn) > 0:
-				return known(sigMultiRet, f)
-			case eqTrue > 0:
-				return known(sigJe, f)
-			}
-			return finish(pbt.Outcome{Fail: f})
-		}
-		if c.Mpm && ld.BM != nil {
-			bonds := ld.BM.List_bonds()
-			for _, idx := range idxs {
-				found := false
-				for _, b := range bonds {
-					if strings.HasPrefix(b, fmt.Sprintf("p%do%d,o", k, idx)) {
-						found = true
-					}
-				}
-				if !found {
-					return finish(pbt.Outcome{Fail: pbt.Failf("bm-output-unbonded", "output %d of processor %d (global id %d) reaches no output of the bondmachine; bonds %v\n--- source\n%s", idx, k, rr.Gids[idx], bonds, c.Src)})
-				}
+		return "", false, n
+	}
+	allFaithful, allHDL := true, true
+	var badOps []string
+	for _, p := range ld.Procs {
+		if bad := unfaithfulOps(p.Ops, c.Rsize); len(bad) > 0 {
+			allFaithful = false
+			badOps = append(badOps, bad...)
+			if !hdlEligible(p.Ops, c.Rsize) {
+				allHDL = false
 			}
 		}
 	}
-	lab("sem:gosim-verdict")
-	if eqTrue > 0 || facts.Labels["op:=="] {
-		lab("sem:gosim-verdict-with-je")
+	if !allFaithful && !allHDL {
+		sort.Strings(badOps)
+		lab("sem:needs-hdl")
+		lab("sem:needs-hdl:" + strings.Join(dedup(badOps), ","))
+		return finish(out)
+	}
+	total := 0
+	if allFaithful {
+		for k, p := range ld.Procs {
+			rr := ref.Routines[k]
+			inputs := make([]uint64, int(p.Mach.N))
+			for idx, gid := range rr.InGids {
+				if idx < len(inputs) && gid < len(c.InVals) {
+					inputs[idx] = c.InVals[gid]
+				}
+			}
+			ticks := 20*rr.Evals + 200
+			got, executed, serr := Simulate(p.Mach, inputs, ticks)
+			mismatch, _, n := compare(rr, got, fmt.Sprintf("%d instructions", executed))
+			if serr != nil {
+				mismatch = "simulation stopped: " + serr.Error()
+			}
+			total += n
+			if mismatch != "" {
+				return classify(pbt.Failf(sigSemantics, "register size %d, processor %d (%s), Go simulator: %s\nexpected streams (per output, first 32) %v\nmachine streams  (per output, first 32) %v\n--- source\n%s--- assembly %d\n%s",
+					c.Rsize, k, rr.Func, mismatch, clip(rr.Streams), clip(got), c.Src, k, numbered(base.Asm[k])))
+			}
+			if c.Mpm && ld.BM != nil {
+				bonds := ld.BM.List_bonds()
+				for _, idx := range sortedKeys(rr.Streams) {
+					found := false
+					for _, b := range bonds {
+						if strings.HasPrefix(b, fmt.Sprintf("p%do%d,o", k, idx)) {
+							found = true
+						}
+					}
+					if !found {
+						return finish(pbt.Outcome{Fail: pbt.Failf("bm-output-unbonded", "output %d of processor %d (global id %d) reaches no output of the bondmachine; bonds %v\n--- source\n%s", idx, k, rr.Gids[idx], bonds, c.Src)})
+					}
+				}
+			}
+		}
+		lab("sem:gosim-verdict")
+		if eqTrue > 0 || facts.Labels["op:=="] {
+			lab("sem:gosim-verdict-with-je")
+		}
+	}
+	// ---- the generated Verilog under the in-house interpreter: the only executable semantics of r2m/m2r
+	// (RAM variables), and for faithful machines (c.HDL) a guard of this very path: there the Go simulator
+	// has just agreed with the source, so the hardware must too
+	if !allFaithful || c.HDL {
+		bm, werr := wrapBM(ld, c.Rsize)
+		if werr != nil {
+			lab("sem:hdl-not-elaborable:wrap")
+			return finish(out)
+		}
+		// constant per external input of the bondmachine
+		inVals := make([]uint64, bm.Inputs)
+		if ld.BM == nil {
+			for idx, gid := range ref.Routines[0].InGids {
+				if idx < len(inVals) && gid < len(c.InVals) {
+					inVals[idx] = c.InVals[gid]
+				}
+			}
+		} else {
+			for _, b := range bm.List_bonds() {
+				var k, pp, j int
+				if n, _ := fmt.Sscanf(b, "i%d,p%di%d", &k, &pp, &j); n == 3 && k < len(inVals) && pp < len(ref.Routines) {
+					if gid, ok := ref.Routines[pp].InGids[j]; ok && gid < len(c.InVals) {
+						inVals[k] = c.InVals[gid]
+					}
+				}
+			}
+		}
+		instr := 0
+		want := make([]map[int]int, len(ref.Routines))
+		for k, rr := range ref.Routines {
+			if t := 20*rr.Evals + 200; t > instr {
+				instr = t
+			}
+			want[k] = map[int]int{}
+			for idx, st := range rr.Streams {
+				want[k][idx] = len(st)
+			}
+		}
+		full := 8 * instr // cycles: no instruction bondgo emits takes more than a few
+		budget := full
+		if budget > hdlCycleCap {
+			budget = hdlCycleCap
+		}
+		h := RunHDL(bm, len(ld.Procs), inVals, budget, want)
+		switch {
+		case strings.HasPrefix(h.Status, "not-elaborable:"):
+			lab("sem:hdl-" + h.Status)
+			lab("sem:hdl-not-elaborable")
+			return finish(out)
+		case h.Status != "":
+			lab("sem:hdl-" + h.Status)
+			return finish(out)
+		}
+		hdlTotal := 0
+		for k := range ld.Procs {
+			rr := ref.Routines[k]
+			mismatch, short, n := compare(rr, h.Streams[k], fmt.Sprintf("%d clock cycles (%d program-counter updates)", h.Cycles, h.Retired[k]))
+			hdlTotal += n
+			if mismatch == "" {
+				continue
+			}
+			if short && budget < full && h.LastTick[k] > h.Cycles-64 {
+				// the cycle cap, not the liveness bound, ended the run and the processor was still retiring
+				lab("sem:hdl-inconclusive-short")
+				return finish(out)
+			}
+			f := pbt.Failf(sigSemantics, "register size %d, processor %d (%s), generated Verilog under the interpreter: %s\nexpected streams (per output, first 32) %v\nhardware streams (per output, first 32) %v\n--- source\n%s--- assembly %d\n%s",
+				c.Rsize, k, rr.Func, mismatch, clip(rr.Streams), clip(h.Streams[k]), c.Src, k, numbered(base.Asm[k]))
+			if allFaithful {
+				f.Sig = "hdl-disagrees-where-simulator-agrees"
+				return finish(pbt.Outcome{Fail: f})
+			}
+			return classify(f)
+		}
+		if allFaithful {
+			lab("sem:hdl-guard-agrees")
+		} else {
+			lab("sem:hdl-verdict")
+			total = hdlTotal
+			if eqTrue > 0 || facts.Labels["op:=="] {
+				lab("sem:hdl-verdict-with-je")
+			}
+		}
 	}
 	out.NonTrivial = ref.Vars >= 2 && facts.Loops+facts.Branches >= 1 && total >= 3
 	return finish(out)
+}
+
+// hdlCycleCap bounds one interpreter run. A run that ends on the cap (not on the liveness bound) with the
+// hardware still retiring instructions is labelled inconclusive-short, never judged.
+const hdlCycleCap = 60000
+
+func dedup(xs []string) []string {
+	var r []string
+	for i, x := range xs {
+		if i == 0 || x != xs[i-1] {
+			r = append(r, x)
+		}
+	}
+	return r
 }
 
 const ruleCommon = "; each program is compiled by the real bondgo CLI once per plan (3 plans: GOMAXPROCS in {1,2,4,8} x VERIF_BONDGO_SCHED), register size 8/16/32/64, every routine ends in an endless writing loop; oracles: (i) every run terminates (10 s; a goroutine dump classifies hangs), (ii) assembly and machine JSON byte-equal across plans, (iii) reference evaluator vs the machine on the Go simulator when all requested opcodes are faithful there (else label sem:needs-hdl); non-trivial = accepted, >=2 value variables, >=1 loop or branch, >=3 output values compared with the reference"
@@ -742,6 +861,23 @@ func init() {
 	}
 }
 `}},
+		{"define-of-ram-name-never-binds", "compile_full", sigDefMem, Case{Rsize: 8, Plans: manyPlans(3), Src: hdr + `func main() {
+	var out0 bondgo.Output
+	var x uint8
+	var reg_y uint8
+	out0 = bondgo.Make(bondgo.Output, 1)
+	x = 5
+	if true {
+		x := 9
+		reg_y = reg_y + x
+	}
+	for {
+		bondgo.IOWrite(out0, reg_y)
+		bondgo.IOWrite(out0, x)
+		reg_y++
+	}
+}
+`}},
 		{"define-of-existing-name-dropped", "compile_faithful", sigDefIgn, Case{Rsize: 8, Plans: manyPlans(3), Src: hdr + `func main() {
 	var out0 bondgo.Output
 	var reg_x uint8
@@ -972,5 +1108,47 @@ func TestRefScoping(t *testing.T) {
 	}
 	if f.Shadowing != 4 {
 		t.Errorf("shadowing declarations %d, expected 4", f.Shadowing)
+	}
+}
+
+// TestHDLProbe compiles one program and runs it on both back-ends: VERIF_C12_PROBE=<file.go> [VERIF_C12_PROBE_MPM=1]
+func TestHDLProbe(t *testing.T) {
+	fn := os.Getenv("VERIF_C12_PROBE")
+	if fn == "" {
+		t.Skip("VERIF_C12_PROBE not set")
+	}
+	needTools(t)
+	t.Cleanup(CleanupWork)
+	b, err := os.ReadFile(fn)
+	if err != nil {
+		t.Fatal(err)
+	}
+	mpm := os.Getenv("VERIF_C12_PROBE_MPM") != ""
+	r := RunBondgo(string(b), 8, mpm, Plan{GoMaxProcs: 2})
+	fmt.Printf("status=%s stdout=%q\n", r.Status, r.Stdout)
+	for _, k := range sortedKeys(r.Asm) {
+		fmt.Printf("--- asm %d\n%s", k, numbered(r.Asm[k]))
+	}
+	if r.Status != "ok" {
+		return
+	}
+	ld, err := LoadMachine(r.Machine, mpm)
+	if err != nil {
+		t.Fatal(err)
+	}
+	bm, err := wrapBM(ld, 8)
+	if err != nil {
+		t.Fatal(err)
+	}
+	in := make([]uint64, 16)
+	h := RunHDL(bm, len(ld.Procs), in, 3000, nil)
+	fmt.Printf("hdl status=%q cycles=%d retired=%v\n", h.Status, h.Cycles, h.Retired)
+	for p, s := range h.Streams {
+		fmt.Printf("hdl proc %d: %v\n", p, clip(s))
+	}
+	ref, rerr := RefEval(string(b), 8, in, refBudget{MaxEvals: 4000, MaxWrites: 24})
+	fmt.Printf("ref err=%v\n", rerr)
+	for p, rr := range ref.Routines {
+		fmt.Printf("ref proc %d: %v\n", p, clip(rr.Streams))
 	}
 }
